@@ -117,7 +117,7 @@ class PMSITunnel(Attribute):
             # Identifier carries the unicast tunnel endpoint IP address of the
             # local PE that is to be this PE's receiving endpoint address for the
             # tunnel.
-            return str(netaddr.IPAddress(int(binascii.b2a_hex(tunel_data), 16)))
+            return str(netaddr.IPAddress(int(binascii.b2a_hex(tunel_data), 16), 6 if len(tunel_data) > 4 else 4))
         elif tunel_type == bgp_cons.PMSI_TUNNEL_TYPE_MLDP_MP2MP:
             # When the Tunnel Type is set to mLDP Multipoint-to-Multipoint (MP2MP)
             # LSP, the Tunnel Identifier is an MP2MP FEC Element [mLDP].
